@@ -63,6 +63,7 @@ struct input_t {
     uint64_t declared = 0;          // declared pixels (+ palette entries) by the harness's own header parse
     long dw = 0, dh = 0;            // declared dimensions (0 when not parseable / absurd)
     bool truncated_valid = false;   // a strict prefix of a valid file
+    size_t fixed_hdr = 0;           // bytes that the format's decoder reads as fixed-size fields before anything else (0: unknown)
 };
 
 struct pats_t { unsigned char stack, heap; };
@@ -92,6 +93,30 @@ template <class View> static uint64_t hash_view(View const& v) {
     return hash_view_impl(v, typename gil::is_bit_aligned<typename View::value_type>::type());
 }
 
+// ---- every member of an info / backend struct goes into the outcome digest --------------------------
+// (a field completed from bytes that the device never delivered must show up in the pre-fill differential and
+// in the comparison between devices, whichever field it is)
+struct dumper {
+    std::ostringstream os;
+    dumper() { os.precision(17); }
+    template <class T> typename std::enable_if<std::is_arithmetic<T>::value || std::is_enum<T>::value, dumper&>::type
+    f(const char* n, T v) { os << n << '=' << +v << ' '; return *this; }
+    dumper& f(const char* n, std::string const& v) { os << n << "=s" << v.size() << ':' << std::hex << vh::hash_str(v) << std::dec << ' '; return *this; }
+    dumper& raw(const char* n, const void* p, size_t bytes, size_t count) {
+        os << n << "=v" << count << ':' << std::hex << c11::hash_raw(bytes ? p : (const void*)"", bytes, 7) << std::dec << ' '; return *this;
+    }
+    template <class T> typename std::enable_if<std::is_trivially_copyable<T>::value, dumper&>::type
+    f(const char* n, std::vector<T> const& v) { return raw(n, v.data(), v.size() * sizeof(T), v.size()); }
+    dumper& f(const char* n, std::vector<std::string> const& v) { os << n << "=v" << v.size() << ' '; for (auto const& x : v) f("", x); return *this; }
+    std::string str() const { return os.str(); }
+};
+// what every reader backend / scanline reader exposes besides _info
+template <class Backend> static std::string backend_common(Backend const& be) {
+    dumper d;
+    d.f("sl", (uint64_t)be._scanline_length).f("tlx", (long long)be._settings._top_left.x).f("tly", (long long)be._settings._top_left.y)
+     .f("dx", (long long)be._settings._dim.x).f("dy", (long long)be._settings._dim.y);
+    return d.str();
+}
 
 // breadcrumb for fatal reports: which device / entry point was running (printed by the death callback)
 static const char* g_at_dev = "-"; static const char* g_at_entry = "-"; static int g_at_run = 0;
@@ -158,6 +183,7 @@ static outcome run_once(input_t const& in, dev_kind d, const char* entry, pats_t
 }
 
 static std::string g_fmt;        // "bmp", ...
+static bool g_strict_fields = false;   // the format's decoder is GIL's own and reads its header/packets as fixed-size fields
 static std::string g_cls_tail;   // mutation class of the current case without the format ("truncate", "field.width" ...)
 
 // run one entry through one device: differential pair (+ attribution run), verdicts, accounting
@@ -179,6 +205,18 @@ static outcome run_entry(input_t const& in, dev_kind d, const char* entry, Fn&& 
                  vh::cat("same ", in.bytes->size(), "-byte input, outcome depends on the ", stack_dep ? "stack" : "heap",
                          " contents before the call: [", a.str(), "] vs [", b.str(), "]"));
     }
+    // a fixed-size field (a read of <= 8 bytes) that the device could not deliver completely must end in an exception:
+    // whatever completes it (stack garbage, the previous field's bytes left in the same buffer) is not file data.
+    // Independent of what the leftover bytes happen to be, so it also holds where the differential is blind.
+    // Judged where every device read is such a field: read_image_info, and any entry point when the input ends inside
+    // the fixed part of the header (pixel rows of <= 8 bytes are bulk reads; a reader that tolerates a short row is
+    // counted under ok-on-truncated, not alarmed).
+    bool all_fields = strcmp(entry, "info") == 0 || in.bytes->size() < in.fixed_hdr;
+    if (g_strict_fields && all_fields && d != D_NAME && a.cls == c11::OC_OK && a.ops.short_small > 0)
+        vh::viol("short-field-read-accepted." + where,
+                 vh::cat("a read of <= 8 bytes came back short (", a.ops.short_small, " such reads; input ", in.bytes->size(),
+                         " bytes) and the reader returned normally: [", a.str(), "]"));
+    if (g_strict_fields && all_fields && a.ops.short_small > 0) vh::obs("short-field-read.judged");
     vh::count(vh::cat("outcome.", c11::oc_name(a.cls)));
     vh::obs(vh::cat("outcome.", c11::oc_name(a.cls)));
     vh::obs(vh::cat("entry.", entry));
@@ -242,6 +280,7 @@ template <class F> struct scan {
             ++rows;
         }
         o.rows = rows; o.pix = h;
+        o.info = F::info_str(rd._info) + " | " + backend_common(rd) + F::backend_extra(rd);
     }
     static void go(std::istream& is, outcome& o) {
         typedef gil::detail::istream_device<tag> dev_t;
@@ -321,10 +360,11 @@ template <class F> static void run_device(input_t const& in, dev_kind d, uint64_
     // (1) read_image_info
     run_entry(in, d, "info", [&](auto& s, outcome& o) {
         auto be = gil::read_image_info(s, tag());
-        o.info = F::info_str(be._info);
+        o.info = F::info_str(be._info) + " | " + backend_common(be) + F::backend_extra(be);
         { long long iw = (long long)be._info._width, ih = (long long)be._info._height;
           if (iw > 0 && ih > 0) { unsigned __int128 pp = (unsigned __int128)iw * (unsigned __int128)ih; uint64_t q = pp > ((unsigned __int128)1 << 40) ? (uint64_t)1 << 40 : (uint64_t)pp; if (q > g_info_declared) g_info_declared = q; } }
     });
+    if (F::has_info_all) run_entry(in, d, "info-all", [&](auto& s, outcome& o) { F::info_all(s, o); });
     // (2) read_image in every native type -- except for headers that declare more than 16 Mi pixels: reading such an
     // image is tens of millions of device calls of legitimate work per entry point (time proportional to the
     // declared size, which the property allows); those inputs keep read_image_info and the bounded scanline drain
@@ -372,6 +412,7 @@ template <class F> static void run_input(std::string const& bytes, bool truncate
         in.declared = p > (unsigned __int128)1 << 40 ? (uint64_t)1 << 40 : (uint64_t)p;
     } else in.declared = extra;
     in.declared += F::declared_slack(bytes);
+    in.fixed_hdr = F::fixed_header_len(bytes);
     uint64_t salt = c11::hash_raw(bytes.data(), bytes.size(), 1);
     c11::arm_cpu_net(200);
     g_info_declared = 0;
@@ -390,10 +431,12 @@ static std::string hex_head(std::string const& b, size_t n = 48) {
 
 // announce + run one mutated input
 static uint64_t g_case_counter = 0;
+static bool g_list_only = false;      // --list 1: print the @@CASE lines of the enumeration without running anything (tooling)
 template <class F, class Make>
 static void mut_case(std::string const& cls_tail, std::string const& id, bool truncated_valid, bool enumerated, Make&& make) {
     uint64_t counter = ++g_case_counter;
     if (!vh::begin_case(vh::cat(F::name(), ".", cls_tail), id)) return;
+    if (g_list_only) return;
     g_cls_tail = cls_tail;
     std::string bytes = make();
     // the file-name device shares file_stream_device with FILE*: used for one mutation in four (all in thorough)
@@ -420,6 +463,47 @@ static bool c11_want_next() {
 }
 static void c11_skip_case() { ++vh::st().idx; ++g_case_counter; }     // what begin_case() does for a case of another shard
 #define MUT(cls, id, tv, en, ...) do { if (c11_want_next()) mut_case<F>(cls, id, tv, en, __VA_ARGS__); else c11_skip_case(); } while (0)
+
+// A valid file into which ignorable data was inserted (a long JPEG COM/APPn segment, a PNG text chunk, an unknown
+// TIFF tag) must decode exactly like the file without it, through every device: the case runs the usual entry
+// points on the variant and then compares read_and_convert_image<Img> of base and variant.
+template <class F, class Img>
+static void equiv_check(std::string const& base, std::string const& variant, bool with_filename) {
+    dev_kind devs[3] = { D_FILE, D_NAME, D_ISTREAM };
+    for (dev_kind d : devs) {
+        if (d == D_FILE && !F::has_FILE) continue;
+        if (d == D_NAME && !with_filename) continue;
+        outcome r[2];
+        for (int k = 0; k < 2; ++k) {
+            input_t in; in.fmt = F::name(); in.ext = F::ext(); in.bytes = k ? &variant : &base;
+            long w = 0, h = 0; uint64_t extra = 0;
+            if (F::parse_dims(*in.bytes, w, h, extra) && w > 0 && h > 0) in.declared = (uint64_t)w * (uint64_t)h + extra;
+            in.declared += F::declared_slack(*in.bytes);
+            r[k] = run_once(in, d, "equiv", PAT_A, [&](auto& s, outcome& o) { do_convert_image<F, Img>(s, o); });
+        }
+        vh::evals(2);
+        bool same = r[0].cls == c11::OC_OK && r[1].cls == c11::OC_OK && r[0].w == r[1].w && r[0].h == r[1].h && r[0].pix == r[1].pix;
+        if (r[0].cls != c11::OC_OK) vh::fatal_monitor("harness", vh::cat("equivalence base file does not decode: ", r[0].str()));
+        if (!same)
+            vh::viol(vh::cat("ignorable-data-changes-result.", F::name(), ".", DEV_NAME[d]),
+                     vh::cat("valid file with inserted ignorable data (", variant.size(), " bytes) vs the file without it (", base.size(), " bytes): [",
+                             r[1].str(), "] vs [", r[0].str(), "]"));
+        vh::obs("entry.equiv");
+    }
+}
+template <class F, class Img, class Make>
+static void mut_case_equiv(std::string const& cls_tail, std::string const& id, std::string const& base, Make&& make) {
+    uint64_t counter = ++g_case_counter;
+    if (!vh::begin_case(vh::cat(F::name(), ".", cls_tail), id)) return;
+    if (g_list_only) return;
+    g_cls_tail = cls_tail;
+    std::string bytes = make();
+    run_input<F>(bytes, false, true, counter % 2 == 0);
+    g_info_declared = 0;
+    equiv_check<F, Img>(base, bytes, true);
+    vh::distinct(1);
+}
+#define MUTEQ(Img, cls, id, base, ...) do { if (c11_want_next()) mut_case_equiv<F, Img>(cls, id, base, __VA_ARGS__); else c11_skip_case(); } while (0)
 
 // the generic mutation families over a list of seeds
 template <class F> static void generic_families(std::vector<seed_t> const& seeds) {
@@ -503,6 +587,19 @@ struct F_bmp {
     static const char* ext() { return "bmp"; }
     static const bool has_FILE = true;
     static const bool subrect = true;
+    static const bool strict_field_reads = true;
+    static const bool has_info_all = false;
+    // file header (14) + the part of the info header GIL reads field by field (40, or 12 for OS/2); 18 while the size field itself is cut
+    static size_t fixed_header_len(std::string const& b) {
+        if (b.size() < 18) return 18;
+        uint32_t hs = (uint32_t)c11::get_le(b, 14, 4);
+        return hs == 12 ? 26 : hs >= 40 ? 54 : 18;
+    }
+    template <class Src> static void info_all(Src&, outcome&) {}
+    // the palette a backend has read so far (the colour masks are left uninitialised by GIL until 15/16-bit data is read: not dumped)
+    template <class Backend> static std::string backend_extra(Backend const& be) {
+        dumper d; d.raw("pal", be._palette.data(), be._palette.size() * sizeof(be._palette[0]), be._palette.size()); return d.str();
+    }
     typedef std::tuple<gil::rgb8_image_t, gil::rgba8_image_t> natives;
     typedef std::tuple<gil::rgb8_image_t, gil::gray8_image_t> conv_targets;
     typedef gil::any_image<gil::rgb8_image_t, gil::rgba8_image_t> any_t;
@@ -791,6 +888,11 @@ struct F_pnm {
     static const char* ext() { return "pnm"; }
     static const bool has_FILE = true;
     static const bool subrect = true;
+    static const bool strict_field_reads = false;
+    static const bool has_info_all = false;
+    static size_t fixed_header_len(std::string const&) { return 0; }
+    template <class Src> static void info_all(Src&, outcome&) {}
+    template <class Backend> static std::string backend_extra(Backend const&) { return std::string(); }
     typedef std::tuple<gil::gray8_image_t, gil::rgb8_image_t, gil::gray1_image_t> natives;
     typedef std::tuple<gil::rgb8_image_t, gil::gray8_image_t> conv_targets;
     typedef gil::any_image<gil::gray8_image_t, gil::rgb8_image_t, gil::gray1_image_t> any_t;
@@ -942,6 +1044,11 @@ struct F_tga {
     static const char* ext() { return "tga"; }
     static const bool has_FILE = true;
     static const bool subrect = true;
+    static const bool strict_field_reads = true;
+    static const bool has_info_all = false;
+    static size_t fixed_header_len(std::string const&) { return 18; }
+    template <class Src> static void info_all(Src&, outcome&) {}
+    template <class Backend> static std::string backend_extra(Backend const&) { return std::string(); }
     typedef std::tuple<gil::rgb8_image_t, gil::rgba8_image_t> natives;
     typedef std::tuple<gil::rgb8_image_t, gil::gray8_image_t> conv_targets;
     typedef gil::any_image<gil::rgb8_image_t, gil::rgba8_image_t> any_t;
@@ -1093,6 +1200,8 @@ int main(int argc, char** argv) {
     vh::__sanitizer_set_death_callback(&c11_on_death);
 #endif
     g_fmt = F::name();
+    g_strict_fields = F::strict_field_reads;
+    g_list_only = vh::opt_long("list", 0) != 0;
     format_setup();
     build_seeds();
     generic_families<F>(g_seeds);
